@@ -251,7 +251,7 @@ def build_model(net):
     # their orphaned metabolites, and a temporary reaction that was removed, added again inside a block and rolled back.
     import hashlib
     import json
-    h = int(hashlib.sha1(json.dumps(net, sort_keys=True, default=str).encode()).hexdigest()[:6], 16) % 3
+    h = int(hashlib.sha1(json.dumps(net, sort_keys=True, default=str).encode()).hexdigest()[:6], 16) % 4
     if h == 1 and len(rs) >= 2:
         order = [r.id for r in m.reactions]
         morder = [x.id for x in m.metabolites]
@@ -268,6 +268,18 @@ def build_model(net):
         m.remove_reactions([tmp])
         with m:
             m.add_reactions([tmp])
+    elif h == 3:
+        # a metabolite that joined a reaction and left it again (coefficient back to zero), outside and inside a block
+        for i, x in enumerate(rs[:3]):
+            other = [y for y in m.metabolites if y not in x.metabolites]
+            if not other:
+                continue
+            if i % 2 == 0:
+                x.add_metabolites({other[0]: 2.0})
+                x.subtract_metabolites({other[0]: 2.0})
+            else:
+                with m:
+                    x.add_metabolites({other[0]: -1.0})
     return m
 
 
